@@ -13,8 +13,10 @@ package diff
 // policy, strict flag).
 
 import (
+	"encoding/json"
 	"fmt"
 	"os"
+	"os/exec"
 	"path/filepath"
 	"runtime"
 	"strings"
@@ -476,6 +478,57 @@ func runC01Stress(t *vs.Tape, cfg map[string]string) (res vs.Result) {
 		}
 		progs = append(progs, p)
 	}
+	// a fraction of runs: every task analyses ITS OWN revision of one and the same
+	// path (in-memory revisions of a file, as an editor or a diff of two commits
+	// produces them), all loads starting together
+	if t.Chance("stress.revisions", 1, 2) {
+		shared := files[0].path
+		revOf := func(i int) int { return (progs[i][0].file) % nFpFiles }
+		solo := fpSoloRev // cached for the life of the process
+		fpSrc := func(k int, pol, strict bool) string {
+			pi := 0
+			if pol {
+				pi = 1
+			}
+			var rs []FingerprintResult
+			var err error
+			var pv any
+			func() {
+				defer func() { pv = recover() }()
+				rs, err = FingerprintSourceAdvanced(shared, files[k].src, fpPolicy[pi], strict)
+			}()
+			return renderResults(rs, err, pv)
+		}
+		for i := range progs {
+			if _, ok := solo[revOf(i)]; !ok {
+				solo[revOf(i)] = fpSrc(revOf(i), false, false)
+			}
+		}
+		got := make([]string, nTasks)
+		var wg sync.WaitGroup
+		start := make(chan struct{})
+		for i := range progs {
+			i := i
+			wg.Add(1)
+			go func() {
+				defer wg.Done()
+				<-start
+				got[i] = fpSrc(revOf(i), false, false)
+			}()
+		}
+		close(start)
+		wg.Wait()
+		c.Inc("runs_concurrent_revisions_of_one_path")
+		res.Digest = vs.Hash("revisions", fmt.Sprint(progs))
+		res.Nontrivial = true
+		for i := range progs {
+			if got[i] != solo[revOf(i)] {
+				res.Violation = vs.Violationf("C01/differs-under-concurrency/revisions", "task %d analysed revision %d of %s while %d other callers analysed other revisions of the same path: result differs from analysing that revision alone: %s", i, revOf(i), shared, nTasks-1, firstLineDiff(solo[revOf(i)], got[i]))
+				return
+			}
+		}
+		return
+	}
 	// references with the simulator detached (real pool, native order)
 	refs := map[string]string{}
 	for _, p := range progs {
@@ -535,4 +588,144 @@ func TestVerifC01Stress(t *testing.T) {
 		}
 	}()
 	vs.Main(t, vs.Engine{Property: "C01", Name: "fpstress", MaxTape: 4096, Run: runC01Stress})
+}
+
+// ---- fresh-process histories: what a process analysed earlier must not matter ----
+//
+// One evaluation = one FRESH operating-system process (this test binary
+// re-executed) that fingerprints a tape-chosen sequence of 2-4 sources one
+// after the other; every result must equal the result of a fresh process
+// that analysed only that source. The sources share module path, package
+// path and helper names (as successive revisions or sibling checkouts do).
+
+type fpChildSpec struct {
+	Universe uint64   `json:"universe"`
+	Seq      [][3]int `json:"seq"` // file, policy, strict(0/1)
+	Out      string   `json:"out"`
+}
+
+func fpChild(specJSON string) {
+	var sp fpChildSpec
+	if err := json.Unmarshal([]byte(specJSON), &sp); err != nil {
+		fmt.Fprintln(os.Stderr, "fpchild: bad spec:", err)
+		os.Exit(3)
+	}
+	files, err := fpCorpus(sp.Universe)
+	if err != nil {
+		fmt.Fprintln(os.Stderr, "fpchild: corpus:", err)
+		os.Exit(3)
+	}
+	defer os.RemoveAll(fpRoot)
+	var outs []string
+	for _, q := range sp.Seq {
+		var rs []FingerprintResult
+		var err error
+		var pv any
+		func() {
+			defer func() { pv = recover() }()
+			rs, err = FingerprintSourceAdvanced(files[q[0]].path, files[q[0]].src, fpPolicy[q[1]], q[2] == 1)
+		}()
+		outs = append(outs, renderResults(rs, err, pv))
+	}
+	b, _ := json.Marshal(outs)
+	if err := os.WriteFile(sp.Out, b, 0o600); err != nil {
+		fmt.Fprintln(os.Stderr, "fpchild: write:", err)
+		os.RemoveAll(fpRoot)
+		os.Exit(3)
+	}
+}
+
+var fpSolo = map[[3]int]string{}
+
+var fpSoloRev = map[int]string{}
+
+func fpSpawn(universe uint64, seq [][3]int) ([]string, string) {
+	exe, err := os.Executable()
+	if err != nil {
+		return nil, err.Error()
+	}
+	outF, err := os.CreateTemp(fpWorkDir(), "fpchild-*.json")
+	if err != nil {
+		return nil, err.Error()
+	}
+	outF.Close()
+	defer os.Remove(outF.Name())
+	spec, _ := json.Marshal(fpChildSpec{Universe: universe, Seq: seq, Out: outF.Name()})
+	cmd := exec.Command(exe, "-test.run", "^TestVerifC01Fresh$", "-test.timeout", "600s")
+	for _, e := range os.Environ() {
+		if strings.HasPrefix(e, "VERIF_") && !strings.HasPrefix(e, "VERIF_WORKDIR=") {
+			continue
+		}
+		cmd.Env = append(cmd.Env, e)
+	}
+	cmd.Env = append(cmd.Env, "VERIF_FPCHILD="+string(spec))
+	if b, err := cmd.CombinedOutput(); err != nil {
+		return nil, fmt.Sprintf("child process: %v: %.300s", err, string(b))
+	}
+	raw, err := os.ReadFile(outF.Name())
+	if err != nil {
+		return nil, err.Error()
+	}
+	var outs []string
+	if err := json.Unmarshal(raw, &outs); err != nil || len(outs) != len(seq) {
+		return nil, fmt.Sprintf("child output: %v (%d results for %d calls)", err, len(outs), len(seq))
+	}
+	return outs, ""
+}
+
+func runC01Fresh(t *vs.Tape, cfg map[string]string) (res vs.Result) {
+	c := vs.Counters{}
+	res.Counters = c
+	universe := uint64(0)
+	if cfg["universe"] != "" {
+		fmt.Sscan(cfg["universe"], &universe)
+	}
+	n := 2 + t.Weighted("fresh.n", 3, 2, 1)
+	var seq [][3]int
+	for i := 0; i < n; i++ {
+		// mostly the ordinary files (same package path, same helper names), now and then a wide one
+		fi := t.Weighted("fresh.file", 10, 10, 10, 10, 10, 10, 2, 1)
+		st := 0
+		if t.Chance("fresh.strict", 1, 4) {
+			st = 1
+		}
+		seq = append(seq, [3]int{fi, t.Intn(2, "fresh.policy"), st})
+	}
+	for _, q := range seq {
+		if _, ok := fpSolo[q]; !ok {
+			outs, infra := fpSpawn(universe, [][3]int{q})
+			if infra != "" {
+				res.Infra = infra
+				return
+			}
+			fpSolo[q] = outs[0]
+			c.Inc("fresh_processes")
+		}
+	}
+	outs, infra := fpSpawn(universe, seq)
+	if infra != "" {
+		res.Infra = infra
+		return
+	}
+	c.Inc("fresh_processes")
+	c.Add("calls", int64(n))
+	res.Digest = vs.Hash(fmt.Sprint(universe, seq))
+	res.Nontrivial = true
+	res.Sample = map[string]any{"sequence(file,policy,strict)": fmt.Sprint(seq)}
+	for i, q := range seq {
+		if outs[i] != fpSolo[q] {
+			res.Violation = vs.Violationf("C01/depends-on-process-history", "a fresh process that analysed the sequence %v: the result of call %d (file %d, policy %d, strict %v) differs from a fresh process that analysed only that source: %s", seq, i, q[0], q[1], q[2] == 1, firstLineDiff(fpSolo[q], outs[i]))
+			return
+		}
+	}
+	return
+}
+
+func TestVerifC01Fresh(t *testing.T) {
+	if spec := os.Getenv("VERIF_FPCHILD"); spec != "" {
+		fpChild(spec)
+		return
+	}
+	fpT = t
+	vs.Main(t, vs.Engine{Property: "C01", Name: "fpfresh", MaxTape: 200, Run: runC01Fresh})
 }
